@@ -246,7 +246,7 @@ func genStub(pkg LabPkg, code string) (string, error) {
 	if pkg.FW != "" && fw.imports != "" {
 		fmt.Fprintf(&sb, "\t%s\n", fw.imports)
 	}
-	sb.WriteString(")\n\nvar _ = context.Background\nvar _ = errors.New\nvar _ = fmt.Sprint\nvar _ http.Handler\nvar _ reflect.Type\n\n")
+	sb.WriteString(")\n\nvar _ = context.Background\nvar _ = errors.New\nvar _ = fmt.Sprint\nvar _ http.Handler\nvar _ reflect.Type\nvar _ labrt.Options\n\n")
 
 	// scope constants
 	var scopeConsts []string
